@@ -105,8 +105,8 @@ func c04Publication(c *Ctx, m *Module, pfx string) {
 	}
 	// the link installs `start` (the offset written) expecting `head`
 	la := argsOf(linkCAS)
-	r.Check(pfx+".reserve-write-link", "newCounter/link installs the written record's offset", m.Pos(linkCAS.Pos()), la[3] == argsOf(wr)[1] || describe(la[3]) == describe(argsOf(wr)[1]),
-		"cas32(headOff, head, start) with the start passed to writeEntryAt; got "+describe(la[3])+" vs "+describe(argsOf(wr)[1]))
+	r.Check(pfx+".reserve-write-link", "newCounter/link installs the written record's offset", m.Pos(linkCAS.Pos()), la[3] == argsOf(wr)[1] || describe(la[3]) == describeArg(wr, 1),
+		"cas32(headOff, head, start) with the start passed to writeEntryAt; got "+describe(la[3])+" vs "+describeArg(wr, 1))
 	r.Check(pfx+".reserve-write-link", "newCounter/record written at the reserved start", m.Pos(wr.Pos()), strings.HasSuffix(describe(refine(argsOf(wr)[1], factsAt(wr))), ").place("+describePlaceArgs(resCAS)+")#0") || samePlace(refine(argsOf(wr)[1], factsAt(wr)), argsOf(resCAS)[3]),
 		"the offset written is place()'s start whose end was CASed into the limit")
 	// next.Store(head) right before each link attempt, same head
@@ -173,7 +173,7 @@ func c04Publication(c *Ctx, m *Module, pfx string) {
 		okReload := false
 		for i, e := range phi.Edges {
 			if phi.Block().Dominates(phi.Block().Preds[i]) || blockReaches(phi.Block(), phi.Block().Preds[i]) {
-				if cl, ok := strip(e).(*ssa.Call); ok && calleeName(&cl.Call) == "(*internal/counter.mappedFile).load32" && describe(argsOf(cl)[1]) == describe(la[1]) {
+				if cl, ok := strip(e).(*ssa.Call); ok && calleeName(&cl.Call) == "(*internal/counter.mappedFile).load32" && describeArg(cl, 1) == describe(la[1]) {
 					okReload = true
 				}
 			}
@@ -259,7 +259,7 @@ func c04Publication(c *Ctx, m *Module, pfx string) {
 	r.Check(pfx+".value-add", "Counter.add/load-CAS loop", m.Pos(add.Pos()), okCAS, "the mapped value changes only by CompareAndSwap of a freshly loaded value")
 	for _, fn := range m.PkgFuncs("internal/counter") {
 		for _, cs := range callsIn(fn, "(*sync/atomic.Uint64).Store", "(*sync/atomic.Uint64).Add", "(*sync/atomic.Uint64).Swap", "sync/atomic.StoreUint64", "sync/atomic.AddUint64") {
-			d := describe(argsOf(cs)[0])
+			d := describeArg(cs, 0)
 			mapped := strings.Contains(d, ".count") || strings.Contains(d, "entryAt") || strings.Contains(d, "mapping.Data")
 			r.Check(pfx+".value-add", "blind store/add to a 64-bit atomic in "+fname(fn), m.Pos(cs.Pos()), !mapped, "counter values must only be CASed (saturating add); got "+calleeName(cs.Common())+" on "+d)
 		}
